@@ -1,7 +1,10 @@
 package main
 
 import (
+	"fmt"
 	"math/rand"
+	"strings"
+	"time"
 
 	"verifharness/abfth"
 	"verifharness/vu"
@@ -9,6 +12,8 @@ import (
 
 // Consensus cluster C02 C03 C04 C07 C08 C09: one scenario machinery (harness/abfth), the op mix
 // is aimed at the property.  Run executes the REAL abft.IndexedLachesis on the case.
+
+var c02Timeouts int
 
 func c02Register(id string, maxQuick, maxThorough int) {
 	vu.Register(id, &vu.Prop{
@@ -18,12 +23,54 @@ func c02Register(id string, maxQuick, maxThorough int) {
 				max = maxThorough
 			}
 			for i := 0; i < n; i++ {
-				emit(abfth.Gen(r, abfth.GenOpts{Mix: id, Tier: tier, MaxEv: max})...)
+				// the generator builds the DAG with the real code: guard it by a deadline too
+				done := make(chan []string, 1)
+				go func() {
+					defer func() {
+						if rec := recover(); rec != nil {
+							done <- []string{id, "200", "50", "5", "1", ";", "V", "1", "1", ";", "GENPANIC", strings.ReplaceAll(fmt.Sprint(rec), " ", "_")}
+						}
+					}()
+					done <- abfth.Gen(r, abfth.GenOpts{Mix: id, Tier: tier, MaxEv: max})
+				}()
+				select {
+				case toks := <-done:
+					emit(toks...)
+				case <-time.After(30 * time.Second):
+					emit(id, "200", "50", "5", "1", ";", "V", "1", "1", ";", "GENTIMEOUT")
+					return
+				}
 			}
 		},
 		Run: func(in []string) []string {
 			sc := abfth.Parse(in)
-			return abfth.Exec(sc, vu.Stat)
+			// a per-case deadline: a code change that makes the traversal blow up must end as a
+			// reported observation, not as a hanging check
+			for _, t := range in {
+				if t == "GENTIMEOUT" || t == "GENPANIC" {
+					return []string{"TIMEOUT-in-generator"}
+				}
+			}
+			if c02Timeouts >= 3 {
+				return []string{"TIMEOUT-skipped"}
+			}
+			done := make(chan []string, 1)
+			go func() {
+				defer func() {
+					if r := recover(); r != nil {
+						done <- []string{"PANIC", strings.ReplaceAll(fmt.Sprint(r), " ", "_")}
+					}
+				}()
+				done <- abfth.Exec(sc, vu.Stat)
+			}()
+			select {
+			case obs := <-done:
+				return obs
+			case <-time.After(15 * time.Second):
+				c02Timeouts++
+				vu.Stat("timeout")
+				return []string{"TIMEOUT"}
+			}
 		},
 	})
 }
